@@ -139,12 +139,14 @@ def _scenarios():
 
 
 KPTS_CONFIGS = {
-    "gamma (default)": lambda k: None,
-    "kmesh = [2, 1, 1] Monkhorst-Pack": lambda k: (setattr(k, "kmesh", [2, 1, 1]), setattr(k, "gamma_centered", False)),
-    "kmesh = 1": lambda k: setattr(k, "kmesh", 1),
-    "path = 'R', Nk = 1": lambda k: (setattr(k, "path", "R"), setattr(k, "Nk", 1)),
-    "path = 'GX', Nk = 4": lambda k: (setattr(k, "path", "GX"), setattr(k, "Nk", 4)),
-    "kshift = [0.1, 0, 0.2], kmesh = [1, 2, 1]": lambda k: (setattr(k, "kmesh", [1, 2, 1]), setattr(k, "kshift", [0.1, 0.0, 0.2])),
+    "gamma (default)": lambda at: None,
+    "kmesh = [2, 1, 1] Monkhorst-Pack": lambda at: (setattr(at.kpts, "kmesh", [2, 1, 1]), setattr(at.kpts, "gamma_centered", False)),
+    "kmesh = 1": lambda at: setattr(at.kpts, "kmesh", 1),
+    "path = 'R', Nk = 1": lambda at: (setattr(at.kpts, "path", "R"), setattr(at.kpts, "Nk", 1)),
+    "path = 'GX', Nk = 4": lambda at: (setattr(at.kpts, "path", "GX"), setattr(at.kpts, "Nk", 4)),
+    "kshift = [0.1, 0, 0.2], kmesh = [1, 2, 1]": lambda at: (setattr(at.kpts, "kmesh", [1, 2, 1]), setattr(at.kpts, "kshift", [0.1, 0.0, 0.2])),
+    "set_k(two custom points, weights 0.3 / 0.7)": lambda at: at.set_k([[0.1, 0.0, 0.0], [0.2, 0.1, 0.0]], [0.3, 0.7]),
+    "kmesh = 2, then set_k(two custom points)": lambda at: (setattr(at.kpts, "kmesh", 2), at.build(), at.set_k([[0.1, 0.0, 0.0], [0.2, 0.1, 0.0]], [0.3, 0.7])),
 }
 SETTER_VALUES = {
     # member -> (constructor defaults, [(new value, description)])
@@ -166,13 +168,13 @@ def generic_setter_history(member):
         for val, vname in values:
             for fin in ("build()", "SCF(atoms)"):
                 a = _mk(**base)
-                kcfg(a.kpts)
+                kcfg(a)
                 a.build()
                 setattr(a, member, val)
                 f = _mk(**dict(base, **({member: val} if member != "s" else {})))
                 if member == "s":
                     f.s = val
-                kcfg(f.kpts)
+                kcfg(f)
                 if fin == "build()":
                     a.build()
                     f.build()
